@@ -242,6 +242,8 @@ def doctypes(root: str, canary_uri: str, http_uri: str = "http://127.0.0.1:9/x")
         "internal-used": f'<!DOCTYPE {root} [<!ENTITY a "xx">]>',
         "internal-unused": f'<!DOCTYPE {root} [<!ENTITY unused "yy">]>',
         "bomb": f'<!DOCTYPE {root} [<!ENTITY e0 "aaaaaaaaaa">{bomb}]>',
+        # wide and shallow: one large entity referenced many times stays below the amplification limits built into expat
+        "wide-bomb": f'<!DOCTYPE {root} [<!ENTITY big "{"W" * (1 << 20)}">]>',
         "ext-general-file": f'<!DOCTYPE {root} [<!ENTITY x SYSTEM "{canary_uri}">]>',
         "ext-general-http": f'<!DOCTYPE {root} [<!ENTITY x SYSTEM "{http_uri}">]>',
         "ext-parameter": f'<!DOCTYPE {root} [<!ENTITY % p SYSTEM "{canary_uri}"> %p;]>',
@@ -256,8 +258,8 @@ def doctypes(root: str, canary_uri: str, http_uri: str = "http://127.0.0.1:9/x")
     }
 
 
-ENTITY_CLASSES = ["internal-used", "internal-unused", "bomb", "ext-general-file", "ext-general-http", "ext-parameter", "unparsed", "public-ext"]
-ENTITY_REF = {"internal-used": "&a;", "bomb": "&e8;", "ext-general-file": "&x;", "ext-general-http": "&x;", "public-ext": "&x;"}
+ENTITY_CLASSES = ["internal-used", "internal-unused", "bomb", "wide-bomb", "ext-general-file", "ext-general-http", "ext-parameter", "unparsed", "public-ext"]
+ENTITY_REF = {"internal-used": "&a;", "bomb": "&e8;", "wide-bomb": "&big;" * 48, "ext-general-file": "&x;", "ext-general-http": "&x;", "public-ext": "&x;"}
 LEADS = ["", "<!-- exported by a tool -->\n", '<?xml-stylesheet type="text/xsl" href="s.xsl"?>\n', "\n\n   \n", "<!-- a --><!-- b -->\n<?pi x?>\n",
          # long prologs: nothing bounds what may precede the DOCTYPE (licence banners, runs of PIs, blank padding)
          "<!-- " + "licence text " * 400 + "-->\n", "<?pi " + "x" * 60 + "?>\n" * 1 + "<?note y?>\n" * 900, " " * 5000 + "\n" * 3000,
